@@ -94,7 +94,13 @@ func c07GeoCorners(c *vk.Ctx, i int) {
 			qs = append(qs, q)
 		}
 	}
-	for _, f := range []float64{1, 0.8} {
+	// (a geo search costs thousands of allocating dictionary look-ups: the smaller circle only gets the
+	// conjunction with one term, in both clause orders)
+	g8 := circle(0.8)
+	add(g8)
+	add(&model.Q{Kind: "bool", Must: []*model.Q{T("x"), g8}})
+	add(&model.Q{Kind: "bool", Must: []*model.Q{g8, T("x")}})
+	for _, f := range []float64{1} {
 		g := circle(f)
 		add(g)
 		for _, t := range []*model.Q{T("x"), T("y"), T("z"), K("ka")} {
